@@ -162,4 +162,28 @@ def rows(m, meta):
                         return {"reproduced": True, "input": f"image {img.size} sizing={sizing} history (cell ratio, cols, call)={hist}",
                                 "observed": f"rows() = {n}, rendered canvas = {canv.cols()}x{canv.rows()}"}
     set_cell_ratio(0.5)
-    return {"reproduced": False, "input": "900 random three-step histories", "observed": []}
+    # graphics styles: sizes come from the cell size in pixels, and a source's pixel width need not be a whole number of columns
+    import term_image.geometry as G
+    from term_image.image import KittyImage, ITerm2Image
+    saved = (KittyImage._supported, ITerm2Image._supported)
+    KittyImage._supported = ITerm2Image._supported = True
+    try:
+        for cell in ((10, 20), (9, 18), (7, 15), (1, 2)):
+            tests.set_cell_size(G.Size(*cell))
+            for cls in (KittyImage, ITerm2Image):
+                for trial in range(10):
+                    px = (rng.randint(1, 300), rng.randint(1, 500))
+                    img = Image.new("RGB", px)
+                    for upscale in (False, True):
+                        widget = UrwidImage(cls(img), upscale=upscale)
+                        for cols in sorted({1, 2, px[0] // cell[0], px[0] // cell[0] + 1, max(1, px[0] // cell[0] - 1), rng.randint(1, 60), rng.randint(1, 60)} - {0}):
+                            n = widget.rows((cols,))
+                            canv = widget.render((cols,))
+                            n_content = len(list(canv.content()))
+                            if not (n == canv.rows() == n_content) or canv.cols() != cols:
+                                return {"reproduced": True, "input": f"{cls.__name__} image {px} px, cell size {cell}, upscale={upscale}, flow width {cols}",
+                                        "observed": f"rows() = {n}, rendered canvas = {canv.cols()}x{canv.rows()}, content yields {n_content} rows"}
+    finally:
+        KittyImage._supported, ITerm2Image._supported = saved
+        tests.set_cell_size(G.Size(9, 18))
+    return {"reproduced": False, "input": "900 random three-step histories (text style); graphics styles over cell sizes x pixel sizes x flow widths", "observed": []}
